@@ -544,7 +544,11 @@ type vcaseJSON struct {
 var v2Payload = []byte("GET /")
 
 func vcaseInput(vc, fam, length, seed int) []byte {
-	in := v2header(byte(vc), byte(fam), length, genBody(seed, length))
+	n := length
+	if vc&0xF0 != 0x20 && n > 64 {
+		n = 64 // refused after 16 bytes: only the first 64 bytes of the announced body are sent (Check.vcase_body_len)
+	}
+	in := v2header(byte(vc), byte(fam), length, genBody(seed, n))
 	return append(in, v2Payload...)
 }
 
@@ -843,15 +847,11 @@ func main() {
 		for vc := 0; vc < 256; vc++ {
 			for fam := 0; fam < 256; fam++ {
 				for _, l := range lengths {
-					// the two 2 KiB lengths cost 30 ms each in the kernel: all 16 commands of version 2 and 8 other version bytes
-					if l >= 2048 && vc&0xF0 != 0x20 && vc%32 != 1 {
-						continue
-					}
 					addV(vc, fam, l, (vc+fam+l)%200)
 				}
 			}
 		}
-		m.V2Exhaustive = "all 256 version/command bytes x all 256 family bytes x lengths {0,1,11,12,13,35,36,37,216} (exhaustive) + (version 2 x all 16 commands and 8 other version bytes) x all 256 family bytes x lengths {2048,2049}"
+		m.V2Exhaustive = "all 256 version/command bytes x all 256 family bytes x lengths {0,1,11,12,13,35,36,37,216,2048,2049} (exhaustive)"
 	} else {
 		for vc := 0; vc < 256; vc++ {
 			for fam := 0; fam < 256; fam++ {
